@@ -152,6 +152,13 @@ def _pair_guard_sets(fnode):
         if isinstance(n, ast.Compare) and len(n.ops) == 1 and isinstance(n.ops[0], (ast.In, ast.NotIn)) and isinstance(n.left, ast.Name) \
                 and isinstance(n.comparators[0], ast.Name):
             used.add(n.comparators[0].id)
+        # ... or subtracted from the columns a loop walks: `for c in common - X`
+        if isinstance(n, (ast.For, ast.comprehension)):
+            for b in ast.walk(n.iter):
+                if isinstance(b, ast.BinOp) and isinstance(b.op, ast.Sub) and isinstance(b.right, ast.Name):
+                    used.add(b.right.id)
+                if isinstance(b, ast.Call) and isinstance(b.func, ast.Attribute) and b.func.attr == "difference" and b.args and isinstance(b.args[0], ast.Name):
+                    used.add(b.args[0].id)
     return [st for st in ast.walk(fnode) if isinstance(st, ast.Assign) and len(st.targets) == 1 and isinstance(st.targets[0], ast.Name)
             and st.targets[0].id in used and isinstance(st.value, (ast.SetComp, ast.ListComp, ast.GeneratorExp, ast.Call, ast.Set, ast.BinOp))
             and ("on_a" in unparse(st.value) or "on_b" in unparse(st.value))]
@@ -375,6 +382,7 @@ def _s3(program, res):
     twin_cleanup_rule(program, res)
     polars_coalesce_rule(program, res)
     coalesce_exemption_rule(program, res)
+    polars_orphan_key_rule(program, res)
 
 
 def polars_coalesce_rule(program, res, rule="C16-S3"):
@@ -431,6 +439,41 @@ def coalesce_exemption_rule(program, res, rule="C16-S3"):
             res.fail_at(rule, plj, f"polars-coalesce-exempts-one-sided-keys:{unparse(st.value.right)[:30]}",
                         f"`{unparse(st)[:120]}` exempts every column that is a key on one side: a.natural_join(b, on=[('k','j')], jointype='right') where a also has a "
                         f"column j returns b's j (Polars 2,3 — Pandas and SQL 20,30: the left value)", st)
+
+
+def polars_orphan_key_rule(program, res, rule="C16-S3"):
+    """a key that exists only in the table on the null-able side of the join (differently named keys) has to come out of the join as that
+    table's own column: carried through under a temporary name and renamed back.  Re-creating it afterwards as an alias of the surviving key is
+    right for matched rows only — an unmatched row gets the other table's key value where SQL gives NULL."""
+    plj = program.method("polars_model", "PolarsModel", "_natural_join_step", inherited=False)
+    res.analysed(plj)
+    joins = [c for c in ast.walk(plj.node) if isinstance(c, ast.Call) and isinstance(c.func, ast.Attribute) and c.func.attr == "join"
+             and any(kw.arg in ("left_on", "right_on") for kw in c.keywords)]
+    if len(joins) < 2:
+        raise AnalysisError("Polars _natural_join_step: the two join calls (direct and swapped) were not found")
+    # after-the-join aliases: with_columns([... pl.col(<key expr>).alias(<other key>) ...]) where neither side is a suffixed temporary
+    bad = []
+    for c in ast.walk(plj.node):
+        if isinstance(c, ast.Call) and isinstance(c.func, ast.Attribute) and c.func.attr == "alias" and isinstance(c.func.value, ast.Call) \
+                and dotted_name(c.func.value.func) == "pl.col":
+            src, dst = c.func.value.args[0] if c.func.value.args else None, c.args[0] if c.args else None
+            if src is None or dst is None:
+                continue
+            stxt, dtxt = unparse(src), unparse(dst)
+            temp = any(isinstance(x, (ast.JoinedStr, ast.BinOp)) or (isinstance(x, ast.Constant) and isinstance(x.value, str) and "_da_" in x.value) for x in (src, dst))
+            if temp:
+                continue
+            if isinstance(src, ast.Name) and isinstance(dst, ast.Name) and src.id != dst.id:
+                bad.append(c)
+    carried = any(isinstance(c, ast.Call) and isinstance(c.func, ast.Attribute) and c.func.attr == "rename" and "_da_join_tmp_key" in unparse(c) for c in ast.walk(plj.node))
+    if bad:
+        res.fail_at(rule, plj, "polars-orphan-key-aliased-from-other-side",
+                    f"`{unparse(bad[0])}` re-creates a differently named key after the join as a copy of the surviving key: for an unmatched row of a left / right join "
+                    f"the column then holds the other table's key value (a.natural_join(b, on=[('k','j')], jointype='left'): j = k for rows without partner) where SQL returns NULL", bad[0])
+    elif carried:
+        res.ok(rule, "Polars: a key that exists on one side only is carried through the join under a temporary name and renamed back")
+    else:
+        raise AnalysisError("Polars _natural_join_step: neither the carried temporary key nor an aliasing of keys after the join was recognised")
 
 
 def polars_join_guard_rule(program, res, rule="C16-S3"):
